@@ -23,6 +23,7 @@ import MajoranaVerif.Proofs.Refine
 import MajoranaVerif.Proofs.Mvp3Spec
 import MajoranaVerif.Proofs.Mvp4Spec
 import MajoranaVerif.Proofs.Mvp4Terminates
+import MajoranaVerif.Proofs.Mvp5Total
 open GoInt Model Model.Seq Proofs.Refine
 
 namespace Props.C01
@@ -305,6 +306,134 @@ example : ∃ ticks hk,
     (by
       have h : (Spec.run (specProg { instrs := [.li_ { rd := 5, imm := 7#32 }, .addi_ { rd := 6, rs := 5, imm := 1#32 }, .ret_ {}], labels := {} })
           { regs := Array.replicate 32 0#32, mem := Array.replicate 64 0#8 } 10).stop = .ret := by decide +kernel
+      intro why hc
+      rw [h] at hc
+      cases hc)
+
+/-! ## MVP-5 (work package MVP5): the pipelined machine with a branch target buffer
+
+`Model.Mvp5` (Model/Mvp5.lean) is the cycle-accurate model of proc/mvp5 — MVP-4 plus the branch target buffer
+(4 entries), the decode unit that stalls behind an unresolved unconditional jump, the BTB branch unit that restarts
+the fetch unit at the predicted target when the jump is issued and at the real target when it is executed — tied
+to the Go machine on every generated program (status, CYCLE COUNT, final registers and memory).  It re-uses
+`Model.Mvp4`'s definitions wherever the Go code is the same; `Proofs.Mvp5.mvp5_refines_mvp1` is the simulation
+argument of MVP-4 with the front-end invariant `Proofs.Mvp5.NormalOk5` (decoded instructions in flight, then —
+unless the decode unit waits for a jump — the fetched pcs and the fetch pc, consecutive from the architectural pc;
+an unconditional jump is always the youngest decoded instruction).  The three theorems below are the MVP-5
+counterparts of `mvp4_correct`, `mvp4_total`, `mvp4_correct_total`, with the same statement. -/
+
+/-- **C01 for MVP-5** (safety): every parsed program, every initial state related to a specification machine, every
+fuel and every tick budget — if the MVP-5 run ends (`ret`, past the last instruction, or an error value) and the
+specification run ends within its fuel, they end the same way, and after `ret` / past the end the final registers
+and memory of MVP-5 are the specification's. -/
+theorem mvp5_correct (app : App) (hw : WfApp app) (ctx : Model.Context) (m : Spec.Machine) (hR : Rel ctx m)
+    (hsz : m.mem.size + 64 ≤ 2 ^ 31) (hpw : ∀ r, GoMap.get1 ctx.PendingWriteRegisters r = 0) (fuel ticks : Nat) (hk : Halt)
+    (hh : (Model.Mvp5.run app ctx ticks).halt = some hk) (hnp : ∀ w, hk ≠ .panic w) :
+    Agree4 (Spec.run (specProg app) m fuel) hk (Model.Mvp5.run app ctx ticks).final.base.ctx := by
+  have h1 := mvp1_correct app hw ctx m hR fuel
+  unfold Agree at h1
+  unfold Agree4
+  cases hstop : (Spec.run (specProg app) m fuel).stop with
+  | notWf w => trivial
+  | ret =>
+    have hwf : ∀ why, (Spec.run (specProg app) m fuel).stop ≠ .notWf why := by
+      intro why hc; rw [hstop] at hc; cases hc
+    have hok := Proofs.Mvp4.seqOk_of_spec app hw ctx m hR hsz fuel hwf ticks
+    obtain ⟨n, e1, e2⟩ := Proofs.Mvp5.mvp5_refines_mvp1 app hw.nofwd ctx ⟨hR.rat, hR.tx, hpw⟩ ticks hok hk hh hnp
+    rw [hstop] at h1
+    simp only at h1 ⊢
+    obtain ⟨u1, u2⟩ := Proofs.Mvp4.run_halt_unique mvp1Fetch mvp1Fetch app ⟨ctx, 0#32⟩ n fuel hk .ret e1 h1.1
+    subst u1
+    obtain ⟨f1, f2⟩ := e2 (by intro hc; cases hc)
+    have hfin : (runMvp1 app ⟨ctx, 0#32⟩ n).final = (runMvp1 app ⟨ctx, 0#32⟩ fuel).final := u2
+    refine ⟨rfl, fun r => ?_, ?_⟩
+    · rw [f1, hfin]; exact h1.2.1.regs r
+    · rw [f2, hfin]; exact h1.2.1.mem
+  | offEnd =>
+    have hwf : ∀ why, (Spec.run (specProg app) m fuel).stop ≠ .notWf why := by
+      intro why hc; rw [hstop] at hc; cases hc
+    have hok := Proofs.Mvp4.seqOk_of_spec app hw ctx m hR hsz fuel hwf ticks
+    obtain ⟨n, e1, e2⟩ := Proofs.Mvp5.mvp5_refines_mvp1 app hw.nofwd ctx ⟨hR.rat, hR.tx, hpw⟩ ticks hok hk hh hnp
+    rw [hstop] at h1
+    simp only at h1 ⊢
+    obtain ⟨u1, u2⟩ := Proofs.Mvp4.run_halt_unique mvp1Fetch mvp1Fetch app ⟨ctx, 0#32⟩ n fuel hk .offEnd e1 h1.1
+    subst u1
+    obtain ⟨f1, f2⟩ := e2 (by intro hc; cases hc)
+    have hfin : (runMvp1 app ⟨ctx, 0#32⟩ n).final = (runMvp1 app ⟨ctx, 0#32⟩ fuel).final := u2
+    refine ⟨rfl, fun r => ?_, ?_⟩
+    · rw [f1, hfin]; exact h1.2.1.regs r
+    · rw [f2, hfin]; exact h1.2.1.mem
+  | error er =>
+    have hwf : ∀ why, (Spec.run (specProg app) m fuel).stop ≠ .notWf why := by
+      intro why hc; rw [hstop] at hc; cases hc
+    have hok := Proofs.Mvp4.seqOk_of_spec app hw ctx m hR hsz fuel hwf ticks
+    obtain ⟨n, e1, _⟩ := Proofs.Mvp5.mvp5_refines_mvp1 app hw.nofwd ctx ⟨hR.rat, hR.tx, hpw⟩ ticks hok hk hh hnp
+    rw [hstop] at h1
+    simp only at h1 ⊢
+    exact (Proofs.Mvp4.run_halt_unique mvp1Fetch mvp1Fetch app ⟨ctx, 0#32⟩ n fuel hk .err e1 h1.1).1
+
+/-- **C01 for MVP-5, totality**: whenever the specification run is well-formed and ends within its fuel, the MVP-5
+run ends too — within some tick budget — and not with a Go panic.  (Progress measure `Proofs.Mvp5.phi5`: every tick
+that executes no instruction strictly decreases it — also while the decode unit waits for a jump and while a
+predicted jump is re-issued against the register interlock; no unit panics: `Proofs.Mvp5.cycle5_live`.) -/
+theorem mvp5_total (app : App) (hw : WfApp app) (ctx : Model.Context) (m : Spec.Machine) (hR : Rel ctx m)
+    (hsz : m.mem.size + 64 ≤ 2 ^ 31) (hpw : ∀ r, GoMap.get1 ctx.PendingWriteRegisters r = 0) (fuel : Nat)
+    (hwf : ∀ why, (Spec.run (specProg app) m fuel).stop ≠ .notWf why) :
+    ∃ ticks hk, (Model.Mvp5.run app ctx ticks).halt = some hk ∧ ∀ w, hk ≠ .panic w :=
+  Proofs.Mvp5.mvp5_terminates app hw ctx m hR hsz hpw fuel hwf
+
+/-- **C01 for MVP-5** (full clause): for every parsed program, every initial state related to a specification
+machine and every fuel — whenever the specification run ends by `ret`, by running past the last instruction or with
+a defined error, there is a tick budget within which the MVP-5 run ends the same way (an error value for a defined
+error, never a Go panic), with the specification's final registers and memory after `ret` / past the end. -/
+theorem mvp5_correct_total (app : App) (hw : WfApp app) (ctx : Model.Context) (m : Spec.Machine) (hR : Rel ctx m)
+    (hsz : m.mem.size + 64 ≤ 2 ^ 31) (hpw : ∀ r, GoMap.get1 ctx.PendingWriteRegisters r = 0) (fuel : Nat)
+    (hwf : ∀ why, (Spec.run (specProg app) m fuel).stop ≠ .notWf why) :
+    ∃ ticks hk, (Model.Mvp5.run app ctx ticks).halt = some hk ∧ (∀ w, hk ≠ .panic w) ∧
+      Agree4 (Spec.run (specProg app) m fuel) hk (Model.Mvp5.run app ctx ticks).final.base.ctx := by
+  obtain ⟨ticks, hk, h1, h2⟩ := mvp5_total app hw ctx m hR hsz hpw fuel hwf
+  exact ⟨ticks, hk, h1, h2, mvp5_correct app hw ctx m hR hsz hpw fuel ticks hk h1 h2⟩
+
+/-- `li x5,0 ; li x9,2 ; L: j A ; (shadow: li x6,99 ; sw x6,0(x0) ; div x8,x6,x0) ; A: addi x5,x5,1 ; bne x5,x9,L ;
+jal x1,F ; li x7,1 ; ret ; F: jalr x0,x1,0` — the jump at `L` is executed twice (BTB miss, then BTB hit), `jal` and
+`jalr` once each -/
+def exApp5 : App :=
+  { instrs := [.li_ { rd := 5, imm := 0#32 }, .li_ { rd := 9, imm := 2#32 }, .j_ { label := "A" },
+               .li_ { rd := 6, imm := 99#32 }, .sw_ { rs := 6, rd := 0, offset := 0#32 }, .div_ { rd := 8, rs1 := 6, rs2 := 0 },
+               .addi_ { rd := 5, rs := 5, imm := 1#32 }, .bne_ { rs1 := 5, rs2 := 9, label := "L" },
+               .jal_ { rd := 1, label := "F" }, .li_ { rd := 7, imm := 1#32 }, .ret_ {},
+               .jalr_ { rd := 0, rs := 1, imm := 0#32 }],
+    labels := ⟨[("L", 8#32), ("A", 24#32), ("F", 44#32)]⟩ }
+
+set_option maxRecDepth 100000 in
+/-- Non-vacuity: the MVP-5 model runs this program to `ret`; the shadow of the jump leaves no trace; the BTB has
+learnt the three jumps -/
+example :
+    (Model.Mvp5.run exApp5 { Memory := List.replicate 64 0#8 } 4000).halt = some .ret ∧
+    GoMap.get1 (Model.Mvp5.run exApp5 { Memory := List.replicate 64 0#8 } 4000).final.base.ctx.Registers 5 = 2#32 ∧
+    GoMap.get1 (Model.Mvp5.run exApp5 { Memory := List.replicate 64 0#8 } 4000).final.base.ctx.Registers 6 = 0#32 ∧
+    GoMap.get1 (Model.Mvp5.run exApp5 { Memory := List.replicate 64 0#8 } 4000).final.base.ctx.Registers 7 = 1#32 ∧
+    (Model.Mvp5.run exApp5 { Memory := List.replicate 64 0#8 } 4000).final.btb =
+      [(8#32, 24#32), (32#32, 44#32), (44#32, 36#32)] := by
+  decide
+
+/-- Non-vacuity of `mvp5_correct_total`: all its hypotheses hold together for this program, a 64-byte zero memory
+and the all-zero specification machine (the specification run ends by `ret` within 30 steps). -/
+example : ∃ ticks hk,
+    (Model.Mvp5.run exApp5 { Memory := List.replicate 64 0#8 } ticks).halt = some hk ∧ (∀ w, hk ≠ .panic w) ∧
+    Agree4 (Spec.run (specProg exApp5) { regs := Array.replicate 32 0#32, mem := Array.replicate 64 0#8 } 30) hk
+      (Model.Mvp5.run exApp5 { Memory := List.replicate 64 0#8 } ticks).final.base.ctx :=
+  mvp5_correct_total _ { small := by decide, regs := by decide, nofwd := by decide } _ _
+    { rat := rfl, tx := rfl,
+      regs := by
+        intro r
+        simp only [GoMap.get1, GoMap.get, GoMap.find?, Spec.Machine.rf, List.lookup, Array.getD_eq_getD_getElem?]
+        by_cases h : r < 32 <;> simp [h] <;> rfl,
+      size := by simp, zero := by simp [Spec.Machine.rf], mem := by simp, memSmall := by simp }
+    (by decide) (fun r => by simp [GoMap.get1, GoMap.get, GoMap.find?]) 30
+    (by
+      have h : (Spec.run (specProg exApp5) { regs := Array.replicate 32 0#32, mem := Array.replicate 64 0#8 } 30).stop = .ret := by
+        decide +kernel
       intro why hc
       rw [h] at hc
       cases hc)
